@@ -94,6 +94,7 @@ pub fn class_name(c: SrcClass) -> &'static str {
         SrcClass::BlockRepetitive => "blockrep",
         SrcClass::Zeros => "zeros",
         SrcClass::LevelShift => "levelshift",
+        SrcClass::MixedEntropy => "mixedentropy",
     }
 }
 pub fn class_from(s: &str) -> SrcClass {
@@ -104,6 +105,7 @@ pub fn class_from(s: &str) -> SrcClass {
         "zeroruns" => SrcClass::ZeroRuns,
         "blockrep" => SrcClass::BlockRepetitive,
         "levelshift" => SrcClass::LevelShift,
+        "mixedentropy" => SrcClass::MixedEntropy,
         _ => SrcClass::Zeros,
     }
 }
@@ -279,7 +281,8 @@ pub fn gen_case(rng: &mut Rng, large: bool, cheap_comp: bool) -> CCase {
         spec.stale_temp = Some(*rng.pick(&[0usize, 33, 500_000]));
     }
     // With 4/5-byte hashes keep the number of distinct chunks tiny relative to 2^32.
-    let src_class = *rng.pick(&gen::SRC_CLASSES);
+    // the extended classes include sources whose compressibility changes along the stream
+    let src_class = *rng.pick(&gen::SRC_CLASSES_EXT);
     CCase {
         src_seed: rng.next_u64(),
         src_class,
